@@ -454,6 +454,7 @@ func enginePAIR(w *World, tier string) *EngineResult {
 
 	// (c) flags set through *Context parameters
 	pairCtx(w, r)
+	pairBal(w, r)
 
 	// (d) interface takes Context by value
 	for _, reg := range findRegistries(w) {
@@ -510,6 +511,200 @@ func contextMethodWrites(w *World) map[*ssa.Function][]ctxWrite {
 		}
 	}
 	return out
+}
+
+// paramAlias: v is the parameter or a load of the cell the parameter is spilled into (a
+// parameter captured by a closure lives in a cell).
+func paramAlias(prm *ssa.Parameter) func(ssa.Value) bool {
+	var cell *ssa.Alloc
+	if prm.Referrers() != nil {
+		for _, ref := range *prm.Referrers() {
+			if st, ok := ref.(*ssa.Store); ok && st.Val == ssa.Value(prm) {
+				if al, ok := st.Addr.(*ssa.Alloc); ok {
+					cell = al
+				}
+			}
+		}
+	}
+	return func(v ssa.Value) bool {
+		if v == ssa.Value(prm) {
+			return true
+		}
+		if ld, ok := v.(*ssa.UnOp); ok && cell != nil && ld.X == ssa.Value(cell) {
+			return true
+		}
+		return false
+	}
+}
+
+// pairBal (PAIR-bal): a function that resets a flag through a *Context parameter — the
+// caller's context — has set that flag itself on every path to the reset: the setting call
+// dominates the (deferred) resetting call. A reset without an own set closes a section the
+// caller opened (`private` before `class << self` in a module).
+func pairBal(w *World, r *EngineResult) {
+	mw := contextMethodWrites(w)
+	n := 0
+	for _, fn := range w.Funcs {
+		if fn.Signature.Recv() != nil && isPtrToNamed(fn.Signature.Recv().Type(), modulePath+"/context", "Context") {
+			continue
+		}
+		for _, prm := range fn.Params {
+			if !isPtrToNamed(prm.Type(), modulePath+"/context", "Context") {
+				continue
+			}
+			isCtx := paramAlias(prm)
+			// setting calls per field
+			sets := map[string][]*ssa.BasicBlock{}
+			for _, b := range fn.Blocks {
+				for _, ins := range b.Instrs {
+					if c, ok := ins.(*ssa.Call); ok {
+						if cal := c.Call.StaticCallee(); cal != nil && len(c.Call.Args) > 0 && isCtx(c.Call.Args[0]) {
+							for _, cw := range mw[cal] {
+								if cw.val.k == kBool && cw.val.b {
+									sets[cw.field] = append(sets[cw.field], b)
+								}
+							}
+						}
+					}
+				}
+			}
+			ord := map[string]int{}
+			for _, b := range fn.Blocks {
+				for _, ins := range b.Instrs {
+					var cc *ssa.CallCommon
+					switch x := ins.(type) {
+					case *ssa.Call:
+						cc = &x.Call
+					case *ssa.Defer:
+						cc = &x.Call
+					}
+					if cc == nil {
+						continue
+					}
+					cal := cc.StaticCallee()
+					if cal == nil || len(cc.Args) == 0 || !isCtx(cc.Args[0]) {
+						continue
+					}
+					for _, cw := range mw[cal] {
+						if cw.val.k != kBool || cw.val.b {
+							continue
+						}
+						n++
+						construct := "reset of " + cw.field + " through " + prm.Name()
+						ord[construct]++
+						if ord[construct] > 1 {
+							construct = fmt.Sprintf("%s#%d", construct, ord[construct])
+						}
+						pos := w.pos(instrPos(ins))
+						own := false
+						for _, sb := range sets[cw.field] {
+							if sb == b || sb.Dominates(b) {
+								own = true
+							}
+						}
+						if !own && snapshotRestored(fn, prm, cw.field, b) {
+							r.holds("PAIR-bal", fnKey(fn), construct, "the function keeps the caller's value of the flag and restores it in a deferred closure: the section is its own scope", pos)
+							continue
+						}
+						if own {
+							r.holds("PAIR-bal", fnKey(fn), construct, "the function has set the flag itself on every path to this reset", pos)
+						} else {
+							r.violated("PAIR-bal", fnKey(fn), construct, "the flag of the caller's context is reset although this function has not set it on every path to the reset: a section the caller opened is closed behind its back", pos)
+						}
+					}
+				}
+			}
+		}
+	}
+	r.Stats["context_flag_resets"] = n
+	r.floor("context_flag_resets", 2)
+}
+
+// snapshotRestored: the field is read through prm in the entry block and a deferred closure
+// stores that value back through prm.
+func snapshotRestored(fn *ssa.Function, prm *ssa.Parameter, field string, at *ssa.BasicBlock) bool {
+	isCtx := paramAlias(prm)
+	var cell ssa.Value
+	for _, ref := range *prm.Referrers() {
+		if st, ok := ref.(*ssa.Store); ok && st.Val == ssa.Value(prm) {
+			cell = st.Addr
+		}
+	}
+	// loads of prm.field in the entry block
+	snaps := map[ssa.Value]bool{}
+	for _, sb := range fn.Blocks {
+		if sb != at && !sb.Dominates(at) {
+			continue
+		}
+		for _, ins := range sb.Instrs {
+			if ld, ok := ins.(*ssa.UnOp); ok {
+				if fa, ok := ld.X.(*ssa.FieldAddr); ok && isCtx(fa.X) && fieldNameOf(fa) == field {
+					snaps[ld] = true
+				}
+			}
+		}
+	}
+	if len(snaps) == 0 {
+		return false
+	}
+	for _, b := range fn.Blocks {
+		for _, ins := range b.Instrs {
+			df, ok := ins.(*ssa.Defer)
+			if !ok || (b != at && !b.Dominates(at)) {
+				continue
+			}
+			mc, ok := df.Call.Value.(*ssa.MakeClosure)
+			if !ok {
+				continue
+			}
+			cf := mc.Fn.(*ssa.Function)
+			// which free variables hold the snapshot / the context pointer?
+			snapFV, ctxFV := map[ssa.Value]bool{}, map[ssa.Value]bool{}
+			for i, bnd := range mc.Bindings {
+				if snaps[bnd] {
+					snapFV[cf.FreeVars[i]] = true
+				}
+				// a snapshot kept in a local cell
+				if al, ok := bnd.(*ssa.Alloc); ok {
+					for _, ref := range *al.Referrers() {
+						if st, ok := ref.(*ssa.Store); ok && snaps[st.Val] {
+							snapFV[cf.FreeVars[i]] = true
+						}
+					}
+				}
+				if bnd == ssa.Value(prm) || (cell != nil && bnd == cell) {
+					ctxFV[cf.FreeVars[i]] = true
+				}
+			}
+			for _, cb := range cf.Blocks {
+				for _, ci := range cb.Instrs {
+					st, ok := ci.(*ssa.Store)
+					if !ok {
+						continue
+					}
+					fa, ok := st.Addr.(*ssa.FieldAddr)
+					if !ok || fieldNameOf(fa) != field {
+						continue
+					}
+					base := fa.X
+					if ld, ok := base.(*ssa.UnOp); ok {
+						base = ld.X
+					}
+					if !ctxFV[base] && !ctxFV[fa.X] {
+						continue
+					}
+					v := st.Val
+					if ld, ok := v.(*ssa.UnOp); ok {
+						v = ld.X
+					}
+					if snapFV[v] || snapFV[st.Val] {
+						return true
+					}
+				}
+			}
+		}
+	}
+	return false
 }
 
 func pairCtx(w *World, r *EngineResult) {
@@ -652,5 +847,5 @@ func pairCtx(w *World, r *EngineResult) {
 		}
 	}
 	r.Stats["functions_with_context_pointer_param"] = nFuncs
-	r.floor("functions_with_context_pointer_param", 3)
+	r.floor("functions_with_context_pointer_param", 1)
 }
